@@ -256,6 +256,60 @@ def sym_merge():
     return "ok"
 
 
+def _merge_seq_inputs(mk, val):
+    """Two merge groups handled by ONE merge_peaks call (the scratch buffers are shared between groups):
+    A = peaks 0,1 spanning 20 samples (more than the 8-sample waveform field: down-sampled), B = peaks 2,3 spanning
+    8 samples with a 5-sample hole between them (fits: not down-sampled)."""
+    spec = [(0, 8), (12, 8), (100, 2), (107, 1)]  # (time, length), dt = 1
+    peaks = mk(len(spec))
+    vals = []
+    for i, (t, l) in enumerate(spec):
+        peaks["time"][i], peaks["length"][i], peaks["dt"][i], peaks["channel"][i] = t, l, 1, -1
+        # two samples symbolic (the one of A that sits where B's hole will be, and one of B); merge_peaks branches
+        # on sample values (2^17 paths with all 19 symbolic), the others are distinct concrete values
+        row = [val(f"d{i}_{k}") if (i, k) in ((0, 6), (2, 0)) else 3 + 5 * i + k for k in range(l)]
+        vals.append(row)
+        for k in range(l):
+            peaks["data"][i][k] = row[k]
+        peaks["area"][i] = sum(row[1:], row[0])
+        peaks["n_hits"][i] = 1
+    return peaks, spec, vals
+
+
+def _merge_seq_check(merged, spec, vals):
+    prove(len(merged) == 2, "merge_seq:count")
+    b = merged[1]
+    prove(sand(b["time"] == 100, b["length"] == 8, b["dt"] == 1), "merge_seq:span of the second merged peak")
+    want = [0] * 8
+    for (t, l), row in zip(spec[2:], vals[2:]):
+        for k in range(l):
+            want[t - 100 + k] = row[k]
+    for k in range(8):
+        prove(b["data"][k] == want[k], f"merge_seq:sample {k} of the second merged peak is not the sum of its constituents "
+                                       f"(left over from the group merged before it?)")
+    prove(b["area"] == sum(vals[2][1:], vals[2][0]) + vals[3][0], "merge_seq:area of the second merged peak")
+    return "ok"
+
+
+def sym_merge_seq():
+    import strax
+
+    PD = np.dtype(strax.peak_dtype(n_channels=2, n_sum_wv_samples=8))
+    peaks, spec, vals = _merge_seq_inputs(lambda n: arrays.make(PD, n), lambda nm: fresh_int(nm, 1, 1000))
+    merged = strax.merge_peaks(peaks, np.array([0, 2]), np.array([2, 4]), max_buffer=64)
+    return _merge_seq_check(merged, spec, vals)
+
+
+def nat_merge_seq(params, model):
+    import strax
+
+    PD = np.dtype(strax.peak_dtype(n_channels=2, n_sum_wv_samples=8))
+    peaks, spec, vals = _merge_seq_inputs(lambda n: np.zeros(n, PD), lambda nm: model.get(nm, 1))
+    merged = strax.merge_peaks(peaks, np.array([0, 2]), np.array([2, 4]), max_buffer=64)
+    label = core.concrete_run(lambda: _merge_seq_check(merged, spec, vals), model)
+    return {"ok": label is None, "detail": label or f"second merged waveform {merged[1]['data'].tolist()}", "label": label}
+
+
 def _replace_grid(tier):
     out = []
     for n in range(1, 6 if tier == "quick" else 7):
@@ -294,5 +348,8 @@ OBLIGATIONS = [
     Ob("replace", sym_replace, lambda tier: [dict(no=n, groups=g) for n, g in _replace_grid(tier)], nat_replace,
        setup=_setup, witnesses=2, doc="replace_merged == merged + originals touching none of them, sorted"),
     Ob("merge", sym_merge, lambda tier: [dict()], None, setup=_setup, witnesses=0),
+    Ob("merge_seq", sym_merge_seq, lambda tier: [dict()], nat_merge_seq, setup=_setup, witnesses=1,
+       doc="two groups in one merge_peaks call (first down-sampled, second with a hole): the second merged waveform is "
+           "the sum of its own constituents only"),
     Ob("twin", sym_twin, lambda tier: [dict()], None, setup=_setup, expect_cex=True),
 ]
